@@ -89,6 +89,50 @@ def parse_ubsan(stderr_text):
     return out
 
 
+TSAN_BY_DESIGN = ('uring_',)
+
+
+def parse_tsan(stderr_text, repo):
+    """ThreadSanitizer report blocks -> list of (key, summary, by_design)"""
+    out = []
+    blocks = stderr_text.split('==================')
+    for b in blocks:
+        m = re.search(r'WARNING: ThreadSanitizer: ([^(\n]+)', b)
+        if not m:
+            continue
+        kind = m.group(1).strip().replace(' ', '-')
+        lines = b.splitlines()
+        tops = []
+        cur = None
+        for ln in lines:
+            if re.match(r'^\s+(Read|Write|Previous|Atomic|Location|Thread|Mutex|As if)', ln) or \
+                    re.match(r'^\s+\S.*(by thread|by main thread)', ln):
+                cur = []
+                tops.append(cur)
+                if re.match(r'^\s+(Location|Thread|Mutex)', ln):
+                    cur = None
+                    tops.pop()
+                continue
+            fm = FRAME_RE.match(ln) or re.match(r'^\s*#(\d+) (\S+) (\S+)', ln)
+            if fm and cur is not None:
+                cur.append((fm.group(2), fm.group(3)))
+        funcs = []
+        for st in tops[:2]:
+            f = None
+            for func, loc in st:
+                if '/verif/' in loc or func.startswith('__') or 'tsan' in loc:
+                    continue
+                f = func
+                break
+            if f is None and st:
+                f = st[0][0]
+            funcs.append(f or '?')
+        by_design = any(f.startswith(TSAN_BY_DESIGN) for f in funcs) and kind == 'data-race'
+        key = 'tsan:%s:%s' % (kind, '|'.join(sorted(set(funcs))))
+        out.append((key, ' / '.join(funcs), by_design))
+    return out
+
+
 class WorkerResult:
     def __init__(self):
         self.stats = []          # stats dicts (one per process segment)
@@ -100,6 +144,7 @@ class WorkerResult:
         self.inconclusive = []   # strings
         self.stderr_tail = ''
         self.extra = []          # other JSON lines
+        self.tsan_by_design = {}
 
 
 def run_worker(binpath, base_args, worker, seed, cases, env, repo,
@@ -149,6 +194,14 @@ def run_worker(binpath, base_args, worker, seed, cases, env, repo,
                 res.extra.append(j)
         for k, v in parse_ubsan(err).items():
             res.ubsan[k] = res.ubsan.get(k, 0) + v
+        if 'ThreadSanitizer' in err:
+            for key, summ, by_design in parse_tsan(err, repo):
+                if by_design:
+                    res.tsan_by_design[key] = res.tsan_by_design.get(key, 0) + 1
+                else:
+                    res.viols.append(dict(key=key, detail=summ, case=-1,
+                                          case_seed=None, worker=worker,
+                                          stderr=err[-8000:], trace=''))
         res.stderr_tail = err[-4000:]
         if rc == 0 and got_stats:
             break
@@ -224,7 +277,7 @@ def run_job(binpath, base_args, seed, total_cases, repo, variant,
                           repo, timeout_s, outdir, leak_check)
                 for w in range(nworkers)]
         results = [f.result() for f in futs]
-    agg = dict(cases_run=0, nontrivial=0, distinct=0, counters={}, samples=[],
+    agg = dict(tsan_by_design={}, cases_run=0, nontrivial=0, distinct=0, counters={}, samples=[],
                viols=[], diags=[], ubsan={}, inconclusive=[], crashes=0,
                skipped=0, extra=[], wall_s=time.time() - t0)
     for r in results:
@@ -236,6 +289,8 @@ def run_job(binpath, base_args, seed, total_cases, repo, variant,
         agg['inconclusive'] += r.inconclusive
         for k, v in r.ubsan.items():
             agg['ubsan'][k] = agg['ubsan'].get(k, 0) + v
+        for k, v in r.tsan_by_design.items():
+            agg['tsan_by_design'][k] = agg['tsan_by_design'].get(k, 0) + v
         for s in r.stats:
             agg['nontrivial'] += s.get('nontrivial', 0)
             agg['skipped'] += s.get('skipped', 0)
